@@ -8,6 +8,9 @@
    affected_area.  Statements only (proofs: Proofs/SrcMock2.v). *)
 From EG Require Import Base.Prelude Base.Casts Model.Geometry Gen.MockConsts Model.Mockdisplay Gen.SrcGeometry Gen.SrcCircle Gen.SrcRectPoints Gen.SrcMock Gen.SrcMock2.
 From EG Require Import Proofs.SrcMock Proofs.SrcMock2.
+(* the generated definitions that cast to usize (`as usize`, `usize::try_from`) take the width of usize as Casts.UsizeW; the model
+   of this property works with 64-bit usize (exact integers in range): taken at that width *)
+#[local] Existing Instance Casts.usize64_w.
 
 Theorem C20_src_draw_pixel_is_model : forall s d p c, drepr s d ->
   i32_min <= px p <= i32_max -> i32_min <= py p <= i32_max ->
